@@ -18,6 +18,7 @@ import time
 import traceback
 
 ROOT = os.path.dirname(os.path.dirname(os.path.abspath(__file__)))
+OUT = os.environ.get('SX_OUT_DIR', ROOT)       # evidence/ and replays/ go here (scratch runs against a worktree)
 REPO = os.environ.get('SX_REPO', '/repo')
 PLAIN_PY = '/venv/bin/python'
 
@@ -98,7 +99,7 @@ def run_replay(mod, spec, keep_path=None):
     except subprocess.TimeoutExpired:
         return None, 'replay timed out'
     out = (p.stdout + p.stderr)[-3000:]
-    if p.returncode == 1:
+    if p.returncode == 3:          # 3 = the violation reproduced (1 would be any uncaught Python exception)
         return True, out
     if p.returncode == 0:
         return False, out
@@ -188,7 +189,7 @@ def main(modname):
     listed = load_known(prop)
     new_violations, known_lines, spurious = [], [], []
     seen_specs = set()
-    os.makedirs(os.path.join(ROOT, 'replays', prop), exist_ok=True)
+    os.makedirs(os.path.join(OUT, 'replays', prop), exist_ok=True)
 
     def handle(v, declared_known):
         spec = mod.replay_spec(v)
@@ -197,7 +198,7 @@ def main(modname):
             return
         seen_specs.add(key)
         ok, out = run_replay(mod, spec)
-        path = os.path.join(ROOT, 'replays', prop, key + '.json')
+        path = os.path.join(OUT, 'replays', prop, key + '.json')
         json.dump({'property': prop, 'label': v['label'], 'spec': spec, 'case': v.get('case'),
                    'replay_output': out[-1500:]}, open(path, 'w'), indent=1, default=str)
         if ok is not True:
@@ -258,11 +259,14 @@ def main(modname):
         'wall_s': round(wall, 2),
         'violations': len(new_violations),
     }
-    os.makedirs(os.path.join(ROOT, 'evidence'), exist_ok=True)
-    json.dump(ev, open(os.path.join(ROOT, 'evidence', f'{prop}.json'), 'w'), indent=1, default=str)
+    os.makedirs(os.path.join(OUT, 'evidence'), exist_ok=True)
+    json.dump(ev, open(os.path.join(OUT, 'evidence', f'{prop}.json'), 'w'), indent=1, default=str)
 
     for fid, what, path in sorted(set(known_lines)):
         print(f'KNOWN-FINDING: property={prop} {what} [{fid}] replay={path}')
+    slow = sorted(((r.get('wall_s', 0), r.get('case')) for r in results), reverse=True)[:3]
+    if os.environ.get('VERIF_DEBUG'):
+        print('slowest cases:', slow)
     print(f'{prop} tier={a.tier} cases={len(cases)} paths={agg["paths"]} checks={agg["checks"]} '
           f'queries={stats} wall={wall:.1f}s')
     if new_violations:
